@@ -1,6 +1,7 @@
 import CueVerif.Driver.Proto
 import CueVerif.Model.Tidy
 import CueVerif.Spec.Tidy
+import CueVerif.Driver.C17Modfile
 namespace CueVerif.Driver.C17
 open CueVerif CueVerif.Driver CueVerif.Tidy
 
@@ -23,7 +24,7 @@ def parseImp (s : String) : Option Imp :=
   | _ => none
 
 def parseDep (s : String) : Option Dep :=
-  let (s, d) := if s.endsWith "!" then ((s.dropRight 1), true) else (s, false)
+  let (s, d) := if s.endsWith "!" then ((String.ofList (s.toList.dropLast)), true) else (s, false)
   match s.splitOn "=" with
   | [mp, r] => do pure ⟨← parseMPath mp, ← r.toNat?, d⟩
   | _ => none
@@ -73,7 +74,7 @@ def flawStr : Flaw → String
 
 def fuel : Nat := 20000
 
-def handle (ws : List String) : String :=
+def handleTidy (ws : List String) : String :=
   match ws with
   | ["tidy", m, r] =>
     match parseMain m, parseMods r with
@@ -97,5 +98,10 @@ def handle (ws : List String) : String :=
       | fs => "flawed:" ++ ",".intercalate (fs.map flawStr)
     | _, _, _ => "bad-op"
   | _ => "bad-op"
+
+def handle (ws : List String) : String :=
+  match C17Modfile.handleModfile ws with
+  | some a => a
+  | none => handleTidy ws
 
 end CueVerif.Driver.C17
